@@ -12,7 +12,7 @@ def _mk(kind, dtype=torch.float64, **kw):
     from pytorch_wavelets import DTCWTForward, DTCWTInverse
     from pytorch_wavelets.scatternet import ScatLayer, ScatLayerj2
     cls = {'dwt1d': DWT1DForward, 'idwt1d': DWT1DInverse, 'dwt2d': DWTForward, 'idwt2d': DWTInverse, 'swt': SWTForward,
-           'dtcwt': DTCWTForward, 'idtcwt': DTCWTInverse, 'scat': ScatLayer, 'scat2': ScatLayerj2}[kind]
+           'dtcwt': DTCWTForward, 'idtcwt': DTCWTInverse, 'scat': ScatLayer, 'scat2': ScatLayerj2, 'scat0': ScatLayer, 'scat2_0': ScatLayerj2}[kind]
     old = torch.get_default_dtype()
     torch.set_default_dtype(dtype)
     try:
@@ -28,6 +28,9 @@ CFGS = {
     'dtcwt': (dict(J=3, biort='near_sym_a', qshift='qshift_a'), (2, 2, 18, 22)),
     'scat': (dict(biort='near_sym_a'), (2, 3, 16, 16)),
     'scat2': (dict(biort='near_sym_a', qshift='qshift_a'), (1, 3, 16, 16)),
+    # zero magnitude bias on an image that is exactly zero outside a small blob (exactly-zero coefficients: the 0/0 and masking corner)
+    'scat0': (dict(biort='near_sym_a', magbias=0.0), (2, 3, 16, 16)),
+    'scat2_0': (dict(biort='near_sym_a', qshift='qshift_a', magbias=0.0), (1, 3, 16, 16)),
 }
 INV = {'idwt1d': 'dwt1d', 'idwt2d': 'dwt2d', 'idtcwt': 'dtcwt'}
 
@@ -53,7 +56,12 @@ def _call(kind, dtype, seed):
         kw2 = {k: v for k, v in kw.items() if k != 'J'}
         return _mk(kind, dtype, **kw2), (coeffs[0], list(coeffs[1]))
     kw, shp = CFGS[kind]
-    return _mk(kind, dtype, **kw), torch.tensor(rs.randn(*shp), dtype=dtype)
+    x = rs.randn(*shp)
+    if kind.endswith('0'):
+        m = np.zeros(shp)
+        m[..., 3:6, 4:7] = 1
+        x = x * m
+    return _mk(kind, dtype, **kw), torch.tensor(x, dtype=dtype)
 
 
 @register('purity')
